@@ -46,6 +46,8 @@ where
     ) -> Self {
         let from = from.min(stored_len);
         let to = to.min(stored_len);
+        #[cfg(anydb_verif)]
+        let pages = crate::verif::TapPages(pages);
         Self {
             reader: region.create_reader(),
             pages: pages.read(),
